@@ -8,6 +8,7 @@ from ..core import Discard, Violation, stable_hash
 from ..models import json_ref as jr
 from ..models import value_model as vm
 from ..node import NodeError
+from ..models import layout_gen as lg
 from . import builder as bm
 
 PROP = "C15"
@@ -89,6 +90,15 @@ def generate(rng, opts):
     if r.random() < 0.35:
         cfg = {"nan": r.choice(["NaN", "nan", "n/a"]), "inf": r.choice(["Infinity", "inf", "+oo"]),
                "minf": r.choice(["-Infinity", "-inf", "-oo"])}
+    if r.random() < opts.get("json_layout_share", 0.3):
+        # output side on arrays the JSON reader can never produce: every node class, index width and numeric dtype,
+        # strided and offset buffers (the reader only builds int64/float64/bool leaves below ListOffsetArray64)
+        lopts = {"layout_max_depth": r.choice([1, 2, 3]), "layout_no_bytes": True}
+        t = lg.gen_type(r, 0, lopts)
+        n = r.choice([0, 1, 2, 3, 5, 8])
+        spec = lg.SpecGen(r, lopts).array(t, n)
+        return {"mode": "layout", "spec": spec, "type": t, "cfg": cfg, "initial": r.choice(bm.INITIAL), "resize": r.choice(bm.RESIZE),
+                "out": {"maxdecimals": r.choice([-1, -1, -1, 3]), "buffersize": r.choice(BUFSIZES)}}
     g = Gen(r, opts, allow_nonfinite=cfg["nan"] is not None)
     ndocs = r.choice([1, 1, 1, 2, 3, 5])
     palette = g.sub() if r.random() < 0.6 else None
@@ -248,8 +258,17 @@ def check_one(node, case, rec, data, label, fault_kind, do_output):
         if not vm.same(o[1], exp):
             raise Violation("value", "parsed_value_differs", {"text": show_text(data), "expected": vm.to_jsonable(exp),
                                                               "observed": vm.to_jsonable(o[1])})
+    elif ref.status == "ok":
+        # no document at all (empty or blank stream): the rule "k documents give an array of k values" with k = 0
+        rec.fault(fault_kind + ":empty")
+        if o[0] == "raise":
+            raise Violation("value", "empty_stream_refused", {"text": show_text(data), "error": [o[1], o[2][:300]]})
+        if not vm.same(o[1], []):
+            raise Violation("value", "parsed_value_differs", {"text": show_text(data), "expected": [],
+                                                              "observed": vm.to_jsonable(o[1])})
+        rec.probe("empty_streams_checked")
     else:
-        rec.probe("gray_or_empty_input")
+        rec.probe("gray_input")
     # chunking independence: any buffer size / read pattern gives what the string reader gives
     for rd in case["reads"]:
         o2 = outcome(node, lambda: parse_real(node, 1, data, case, rd))
@@ -291,6 +310,8 @@ def json_view(v, cfg):
         if isinstance(x, tuple):
             if x[0] == "rec":
                 return ("rec", None, [(k, conv(y)) for k, y in x[2]])
+            if x[0] == "tup":
+                return ("rec", None, [(str(i), conv(y)) for i, y in enumerate(x[1])])
             if x[0] == "scalar":
                 return conv(x[1])
         return x
@@ -333,7 +354,7 @@ def check_output(node, case, rec, h, value):
         return          # property: rendered "through the user-chosen strings"; none chosen -> only "no crash"
     parsed = []
     for via, t in enumerate(texts):
-        pr = jr.parse_stream(t)
+        pr = jr.parse_stream(t, uint64_ok=True)
         if pr.status != "ok" or len(pr.docs) != 1:
             raise Violation("output", "to_json_not_well_formed", {"via": via, "text": show_text(t), "why": pr.reason,
                                                                   "value": vm.to_jsonable(value)})
@@ -348,7 +369,7 @@ def check_output(node, case, rec, h, value):
         raise Violation("output", "file_writer_differs_from_string_writer",
                         {"string": show_text(texts[0]), "file": show_text(texts[2])})
     # from_json(to_json(a)) == a  (a is already unified)
-    if md < 0:
+    if md < 0 and case.get("mode") != "layout":
         o = outcome(node, lambda: parse_real(node, 0, texts[0], case))
         if o[0] == "raise":
             raise Violation("roundtrip", "own_output_refused", {"text": show_text(texts[0]), "error": [o[1], o[2][:300]]})
@@ -368,7 +389,24 @@ def show_text(b: bytes):
         return {"hex": b.hex()}
 
 
+def execute_layout(node, case, rec, opts):
+    h = lg.realize(node, case["spec"])
+    if node.text(h, 3) != b"":
+        raise Discard("generated layout is not valid")
+    try:
+        value = vm.loads(node.dump(h))
+    except NodeError as e:
+        raise Discard("walker cannot read the generated layout: %s" % e)
+    if not vm.same(value, lg.value_of(case["spec"])):
+        raise RuntimeError("walker and layout_gen disagree")
+    rec.state(("layout", tuple(sorted(set(c.split(":")[0] for c in lg.node_classes(case["spec"]))))))
+    rec.probe("layout_outputs")
+    check_output(node, case, rec, h, value)
+
+
 def execute(node, case, rec, opts):
+    if case.get("mode") == "layout":
+        return execute_layout(node, case, rec, opts)
     data = bytes.fromhex(case["text"])
     # self-check of the emitter / reference parser pair on the unfaulted text
     ref0 = jr.parse_stream(data)
@@ -413,6 +451,8 @@ def json_dumps(x):
 
 
 def signature(case):
+    if case.get("mode") == "layout":
+        return [stable_hash(["layout", sorted(set(lg.node_classes(case["spec"]))), case["cfg"]["nan"] is not None]), True]
     f = case["fault"]
     data = bytes.fromhex(case["text"])
     fk = None if f is None else (f[0], pos_class(data, min(f[1], len(data) - 1)) if len(f) > 1 and data else None)
@@ -422,12 +462,28 @@ def signature(case):
 
 
 def describe(case):
+    if case.get("mode") == "layout":
+        return {"mode": "layout", "type": case["type"], "classes": lg.node_classes(case["spec"]),
+                "value": vm.to_jsonable(lg.value_of(case["spec"])), "cfg": case["cfg"], "out": case["out"]}
     return {"text": show_text(bytes.fromhex(case["text"])), "fault": case["fault"], "reads": case["reads"],
             "cfg": case["cfg"], "growth": [case["initial"], case["resize"]], "out": case["out"]}
 
 
 # ================================================================================================ shrinking
 def shrink_candidates(case):
+    if case.get("mode") == "layout":
+        from .pool import simpler_specs
+        for sub in simpler_specs(case["spec"]):
+            d = copy.deepcopy(case); d["spec"] = sub; yield d
+        # a field or content on its own
+        sp = case["spec"]
+        for sub in ([sp["content"]] if "content" in sp else []) + list(sp.get("contents", [])):
+            d = copy.deepcopy(case); d["spec"] = sub; yield d
+        if case["cfg"]["nan"] is not None:
+            d = copy.deepcopy(case); d["cfg"] = {"nan": None, "inf": None, "minf": None}; yield d
+        if case["out"]["maxdecimals"] != -1:
+            d = copy.deepcopy(case); d["out"]["maxdecimals"] = -1; yield d
+        return
     data = bytes.fromhex(case["text"])
     f = case["fault"]
     faulted = data if f is None or f[0] == "truncate_all" else apply_fault(data, f)
